@@ -42,6 +42,11 @@ func (w *World) applyFault(orig []byte, f *Fault) []byte {
 			return nil
 		}
 		d = append(d, f.Data...)
+	case "prepend": // octets in FRONT of the genuine message (encapsulation markers, a stray header)
+		if len(f.Data) == 0 {
+			return nil
+		}
+		d = append(clone(f.Data), d...)
 	case "extend_fix": // extension with the header length repaired
 		if len(f.Data) == 0 {
 			return nil
